@@ -398,6 +398,14 @@ theorem plan_head (db : DB) (T c0 : String) (ps cfs : List QName) (rels : List S
 
 /-! ### assembly -/
 
+/-- the two facts about a well-formed relation used here (first two conjuncts of `Rel.wf`, whatever
+follows them) -/
+theorem wf_facts (rel : Rel) (h : rel.wf = true) :
+    (rel.fields.map (·.name)).Nodup ∧ ∀ row ∈ rel.rows, row.length = rel.fields.length := by
+  unfold Rel.wf at h
+  simp only [Bool.and_eq_true, decide_eq_true_eq, List.all_eq_true, and_assoc] at h
+  exact ⟨h.1, h.2.1⟩
+
 theorem nodup_getElem_ne {α} : ∀ (l : List α), l.Nodup → ∀ (i j : Nat) (_ : i < j) (hj : j < l.length),
     l[i]'(by omega) ≠ l[j]
   | [], _, _, _, _, hj => by simp at hj
@@ -434,28 +442,90 @@ theorem starCells (rel : Rel) (T : String) (hnd : (rel.fields.map (·.name)).Nod
     rw [List.getD_eq_getElem?_getD, List.getElem?_eq_getElem (by omega)]
     rfl
 
+/-- C11's evaluation of the query `* from T where c` on `db`, step by step — every component is the
+one C11's `select` computes, none is free:
+* `cq`: the user's condition `c` with its columns resolved and type-checked (`resolveQCond`);
+* `plan`: C11's join plan for the projection "all columns of `T`" and the columns of `cq`
+  (`planJoins`); it starts with `T` (`cols`: the columns read from `T`), `rest` are the further
+  joins (the relations of the condition and linking relations);
+* `s1`: the selection after reading `T`; `sel`: the selection after all joins (`nestedJoins` — the
+  nested-loop form that C11 proves equal to the hash join of `_join`);
+* `indices`: where the columns `cols` sit in a stored row of `T`;
+* `ci`: `cq` with every column replaced by its position in `sel` (`indexCond`). -/
+structure StarPlan (db : DB) (T : String) (c : Cond ColRef) (rel : Rel) where
+  cq : Cond QName
+  plan : Plan
+  cols : List String
+  rest : List (String × List String)
+  s1 : Sel
+  sel : Sel
+  indices : List Nat
+  ci : Cond Nat
+  hcond : resolveQCond db { proj := .star, rels := [T], cond := some c } = .ok (some cq)
+  hplan : planJoins db (rel.fields.map (fun f => ((T, f.name) : QName))) (condFields cq) [T] = .ok plan
+  hjoins : plan.joins = (T, cols) :: rest
+  hfirst : nestedStep db Sel.empty (T, cols) = .ok s1
+  hrest : nestedJoins db s1 rest = .ok sel
+  hindices : cols.mapM rel.fieldIdx? = some indices
+  hci : indexCond sel.index cq = .ok ci
+
+/-- the joined tuples of the stored row `r` of `T` along THE plan: `r` (its columns `cols`) extended,
+join step by join step of `rest`, by the stored rows that agree with it on the shared keys (by cast
+value) -/
+def StarPlan.tuples {db : DB} {T : String} {c : Cond ColRef} {rel : Rel} (P : StarPlan db T c rel)
+    (r : List Cell) : List (List Cell) := chainF db P.s1 P.rest (pick P.indices r)
+
+/-- THE condition (resolved, indexed against the plan's selection) on a joined tuple -/
+def StarPlan.sat {db : DB} {T : String} {c : Cond ColRef} {rel : Rel} (rx : List Char → List Char → Bool)
+    (P : StarPlan db T c rel) (x : List Cell) : Bool := evalCond rx x P.ci
+
+/-- the joined tuples are exactly the rows of C11's joined selection, grouped by the stored row of `T`
+they extend -/
+theorem StarPlan.data {db : DB} {T : String} {c : Cond ColRef} {rel : Rel} (P : StarPlan db T c rel)
+    (hrel : db.rel? T = some rel) : P.sel.data = rel.rows.flatMap P.tuples := by
+  obtain ⟨rel', indices, h1, h2, h3, _, h5, _⟩ := firstStep db T P.cols P.s1 P.hfirst
+  rw [hrel] at h1
+  cases h1
+  rw [P.hindices] at h2
+  cases h2
+  have hj1 : P.s1.joined ≠ [] := by rw [h5]; simp
+  rw [nestedJoins_data db P.rest P.s1 P.sel hj1 P.hrest, h3, List.flatMap_map]
+  rfl
+
+/-- relational reading of `sat` (C11's `evalCond_evalW`): every joined tuple has witness rows `w` — one
+stored row per joined relation, agreeing with the tuple on every column by cast value — and the
+condition holds on the tuple iff the resolved condition `cq` holds on the witness rows (`evalW`: each
+comparison `n.col op literal` on the cast value of column `col` of `w n`). -/
+theorem StarPlan.sat_witness {db : DB} {T : String} {c : Cond ColRef} {rel : Rel}
+    (rx : List Char → List Char → Bool) (P : StarPlan db T c rel) (hrel : db.rel? T = some rel)
+    (r : List Cell) (hr : r ∈ rel.rows) (x : List Cell) (hx : x ∈ P.tuples r) :
+    ∃ w : String → List Cell, WitBy db P.sel.index x w ∧ P.sat rx x = evalW rx db w P.cq := by
+  have hinv1 : SelInv db P.s1 := nestedStep_inv db Sel.empty P.s1 _ (selInv_empty db) P.hfirst
+  have hinv : SelInv db P.sel := nestedJoins_inv db P.s1 P.rest P.sel hinv1 P.hrest
+  have hmem : x ∈ P.sel.data := by
+    rw [P.data hrel]
+    exact List.mem_flatMap.mpr ⟨r, hr, hx⟩
+  obtain ⟨w, _, hw⟩ := hinv.wit x hmem
+  exact ⟨w, hw, evalCond_evalW rx db P.sel.index x w hw P.cq P.ci P.hci⟩
+
 /-- **C11's `select` on the query of mkprof.**  If `select` answers for `* from T where c` (`T` a
-relation with at least one field), its rows are: for every stored row `r` of `T`, in stored order,
-one copy of the raw cells of `r` per joined tuple of `r` that satisfies the condition.  The joined
-tuples of `r` are `chainF db s1 rest (pick indices r)`: `r` extended, join step by join step of C11's
-plan (`rest`, the relations of the condition and linking relations), by the stored rows that agree
-with it on the shared keys (by cast value) — C11's nested-loop join, equal to the hash join of
-`_join` by `join_step_is_relational`. -/
+relation with at least one field), then C11's evaluation `P` (THE resolved condition, THE plan, THE
+joined selection, see `StarPlan`) exists and the answer is: for every stored row `r` of `T`, in stored
+order, one copy of the raw cells of `r` per joined tuple of `r` along the plan (`P.tuples r`) that
+satisfies the condition (`P.sat`). -/
 theorem select_star_grouped (rx : List Char → List Char → Bool) (db : DB) (T : String)
     (c : Cond ColRef) (res : Result) (rel : Rel) (hrel : db.rel? T = some rel) (hf : rel.fields ≠ [])
     (h : select rx db { proj := .star, rels := [T], cond := some c } = .ok res) :
-    ∃ (s1 : Sel) (rest : List (String × List String)) (indices : List Nat) (ci : Cond Nat),
+    ∃ P : StarPlan db T c rel,
       res.rows = rel.rows.flatMap (fun r =>
-        ((chainF db s1 rest (pick indices r)).filter (fun x => evalCond rx x ci)).map
-          (fun _ => r.map (·.raw))) := by
+        ((P.tuples r).filter (P.sat rx)).map (fun _ => r.map (·.raw))) := by
   obtain ⟨proj, cond, plan, sel, rows, hwf, hproj, hcond, hplan, hsel, hrows, hres⟩ := select_inv h
   -- the relation is well formed
   have hmem : rel ∈ db := List.mem_of_find?_eq_some hrel
   have hrwf : rel.wf = true := by
     simp only [DB.wf, Bool.and_eq_true, List.all_eq_true] at hwf
     exact hwf.2 rel hmem
-  simp only [Rel.wf, Bool.and_eq_true, decide_eq_true_eq, List.all_eq_true] at hrwf
-  obtain ⟨⟨⟨hnd, hlen⟩, _⟩, _⟩ := hrwf
+  obtain ⟨hnd, hlen⟩ := wf_facts rel hrwf
   -- the projection is all columns of T, in order
   have hp : proj = rel.fields.map (fun f => ((T, f.name) : QName)) := by
     simp only [resolveProj] at hproj
@@ -463,10 +533,11 @@ theorem select_star_grouped (rx : List Char → List Char → Bool) (db : DB) (T
     exact (Except.ok.inj hproj).symm
   -- the condition resolved
   obtain ⟨cq, hcq⟩ : ∃ cq, cond = some cq := by
-    simp only [resolveQCond] at hcond
-    split at hcond
-    · cases hcond
-    · cases hcond; exact ⟨_, rfl⟩
+    have hc2 := hcond
+    simp only [resolveQCond] at hc2
+    split at hc2
+    · cases hc2
+    · cases hc2; exact ⟨_, rfl⟩
   subst hcq
   -- the plan starts with T
   obtain ⟨f0, fs, hfs⟩ : ∃ f0 fs, rel.fields = f0 :: fs := by
@@ -474,6 +545,7 @@ theorem select_star_grouped (rx : List Char → List Char → Bool) (db : DB) (T
     | nil => exact absurd hfl hf
     | cons a as => exact ⟨a, as, rfl⟩
   have hp' : proj = (T, f0.name) :: fs.map (fun f => ((T, f.name) : QName)) := by rw [hp, hfs]; rfl
+  have hplan0 := hplan
   rw [hp'] at hplan
   obtain ⟨cols, rest, hjoins⟩ := plan_head db T f0.name _ _ _ plan hplan
   rw [runJoins_eq_nestedJoins, hjoins] at hsel
@@ -482,7 +554,7 @@ theorem select_star_grouped (rx : List Char → List Char → Bool) (db : DB) (T
   | error e => simp [hs1] at hsel
   | ok s1 =>
     simp only [hs1] at hsel
-    obtain ⟨rel', indices, h1, _, h3, h4, h5, h6⟩ := firstStep db T cols s1 hs1
+    obtain ⟨rel', indices, h1, h2, h3, h4, h5, h6⟩ := firstStep db T cols s1 hs1
     rw [hrel] at h1
     cases h1
     have hinv1 : SelInv db s1 := nestedStep_inv db Sel.empty s1 _ (selInv_empty db) hs1
@@ -500,9 +572,11 @@ theorem select_star_grouped (rx : List Char → List Char → Bool) (db : DB) (T
       simp only [List.mem_map] at hqn
       obtain ⟨f, _, e⟩ := hqn
       rw [← e]
-    obtain ⟨ci, _, hr⟩ := finish_grouped rx sel proj cq rows rel indices T (chainF db s1 rest) hdata
+    obtain ⟨ci, hci, hr⟩ := finish_grouped rx sel proj cq rows rel indices T (chainF db s1 rest) hdata
       (fun l x hx => chainF_prefix db rest s1 l x hx) hidx hprojT hrows
-    refine ⟨s1, rest, indices, ci, ?_⟩
+    refine ⟨{ cq := cq, plan := plan, cols := cols, rest := rest, s1 := s1, sel := sel, indices := indices,
+              ci := ci, hcond := hcond, hplan := by rw [← hp]; exact hplan0, hjoins := hjoins,
+              hfirst := hs1, hrest := hsel, hindices := h2, hci := hci }, ?_⟩
     rw [hres]
     simp only
     rw [hr]
